@@ -293,6 +293,26 @@ pub fn hang_roots(r: &ExecResult) -> Vec<&verif_rt::Stuck> {
                     roots.push(s);
                 }
             }
+            Wait::Send(ch) => {
+                // a sender on a full channel waits for that channel's consumer: the task(s) that
+                // have been receiving from it (e.g. the reducer loop for the dispatch queue)
+                let mut any = false;
+                for rec in &r.log {
+                    if let Ev::ChanRecv { ch: c, .. } = rec.ev {
+                        if c == *ch && rec.task != s.task {
+                            if let Some(cons) = by_task(rec.task) {
+                                if !seen.contains(&cons.task) {
+                                    work.push(cons);
+                                }
+                                any = true;
+                            }
+                        }
+                    }
+                }
+                if !any {
+                    roots.push(s);
+                }
+            }
             _ => roots.push(s),
         }
     }
